@@ -140,7 +140,10 @@ def ident_strategy(ident, profile="mixed", tail=False):
 def plan_decode(tier, shard, nshards):
     ids = gen.all_idents()[shard::nshards]
     n = 40 if tier == "quick" else 600
-    return [(i, ident_strategy(i), n) for i in ids]
+    out = [(i, ident_strategy(i), n) for i in ids]
+    # every counter at the largest value that fits 1023 bytes, for every identity, on every run
+    out += [(i + "/max", ident_strategy(i, "max"), 2 if tier == "quick" else 20) for i in ids]
+    return out
 
 
 # ------------------------------------------------------------------ (2) one plain field changes one attribute
